@@ -322,6 +322,10 @@ def run(ctx):
     for _ in range(n):
         if not ctx.alive():
             break
+        if rng.random() < 0.01:
+            from ..gen_stepper import failed_call
+            failed_call(rng, rng.choice((plot_utils_mod().supersample, plot_utils_mod().points_in_tolerance)), 2)
+            ctx.tag("history: after a failed call (malformed arguments)")
         classes, pts, tol = gen_path(rng)
         ln = len(pts)
         classes.append("len=%s" % (str(ln) if ln <= 3 else "4..30" if ln <= 30 else ">30"))
@@ -367,6 +371,7 @@ def run(ctx):
                 "outcome:some vertices deleted", "outcome:nothing deleted"):
         ctx.need(cls, 50)
     ctx.need("monitor:supersample evaluated", 3_000)
+    ctx.need("history: after a failed call (malformed arguments)", 20)
     ctx.need("monitor:points_in_tolerance evaluated", 10_000)
     ctx.need("monitor:agreement with max_dist_from_n_points evaluated", 10_000)
     ctx.need("monitor:deleted vertices checked", 10_000)
